@@ -6,6 +6,17 @@ From WK Require Import Base.Base Base.Bytes.
 From WK Require Import Gen.Consts_C26 Model.Wire Model.Pending.
 Open Scope N_scope.
 
+(* one call of a stress run *)
+Record scall := SCall {
+  sc_nonce : bytes;        (* 8 bytes, unique per call *)
+  sc_mode : N;             (* 0 echo, 1 handler error, 2 slow echo *)
+  sc_words : N;            (* the reply asked for: "R" ‖ nonce ‖ nonce × words *)
+  sc_head : bytes;         (* at the END of the case: first <= 9 bytes of the retained payload / the remote message *)
+  sc_err : N;              (* error class Call returned; 0 = nil *)
+  sc_len : N;              (* at the end: length of the retained payload *)
+  sc_stamps : list bytes   (* at the end: the distinct 8-byte words after the head *)
+}.
+
 Inductive c26_case :=
 (* DecodeHeader(enc, max) = res; reenc = EncodeHeader(decoded header) when res is Ok *)
 | C26Dec (enc : bytes) (max : Z) (res : wres header) (reenc : option bytes)
@@ -28,9 +39,9 @@ Inductive c26_case :=
    observed; then the results of the calls still uncollected at the end *)
 | C26Conn (script : list (cop * cobs)) (final : list (N * outcome))
 (* transport.Client / transport.Server over loopback, concurrent calls with
-   timeouts, handler errors and connection resets: per call its nonce, the
-   handler mode it asked for (0 echo, 1 error, 2 slow echo) and what Call returned *)
-| C26Stress (calls : list (bytes * N * outcome)).
+   timeouts, handler errors and connection resets.  Every response is RETAINED by
+   its caller and read only after all bursts and some further large traffic. *)
+| C26Stress (calls : list scall).
 
 Definition obytes_eqb : option bytes -> option bytes -> bool := option_eqb bytes_eqb.
 
@@ -50,16 +61,22 @@ Definition pobs_eqb (a b : pobs) : bool :=
   end.
 
 (* ---- stress runs: what a call may legitimately return -------------------------------
-   the handler replies "R" ‖ nonce (modes 0 and 2) or fails with "E" ‖ nonce (mode 1);
+   the handler replies "R" ‖ nonce ‖ nonce × words (modes 0 and 2) or fails with
+   "E" ‖ nonce (mode 1); a retained reply must still be exactly that at the end;
    any LOCAL error (timeout, cancellation, stop, connection loss, busy) is allowed *)
 Definition E_local_min : N := 30.
 Definition reply_of (nonce : bytes) : bytes := 82 :: nonce.
 Definition errmsg_of (nonce : bytes) : bytes := 69 :: nonce.
-Definition stress_allowed (c : bytes * N * outcome) : bool :=
-  let '(nonce, mode, (p, e)) := c in
-  if e =? 0 then negb (mode =? 1) && bytes_eqb p (reply_of nonce)
-  else if e =? E_remote then (mode =? 1) && bytes_eqb p (errmsg_of nonce)
-  else E_local_min <=? e.
+Definition stress_allowed (c : scall) : bool :=
+  let nonce := sc_nonce c in
+  if sc_err c =? 0 then
+    (* its own reply, whole, and still its own when the case ends *)
+    negb (sc_mode c =? 1) && bytes_eqb (sc_head c) (reply_of nonce)
+    && (sc_len c =? 9 + 8 * sc_words c)
+    && forallb (bytes_eqb nonce) (sc_stamps c)
+    && Nat.eqb (length (sc_stamps c)) (if sc_words c =? 0 then 0 else 1)
+  else if sc_err c =? E_remote then (sc_mode c =? 1) && bytes_eqb (sc_head c) (errmsg_of nonce)
+  else E_local_min <=? sc_err c.
 
 (* ---- correspondence: the model run on the case's input vs what the code returned *)
 Definition C26_mismatch (c : c26_case) : bool :=
